@@ -16,22 +16,40 @@ Proof. induction ls as [|l ls IH]; [reflexivity|]. cbn [concat existsb]. rewrite
 
 (* ------------------------------------------------------------------ printed texts *)
 Lemma meta_tokens_ne m : meta_tokens m <> [].
-Proof. destruct m as [v| |n [v|]]; discriminate. Qed.
+Proof. destruct m as [v|l| |n [v|]]; discriminate. Qed.
 Lemma cmeta_tokens_ne m : cmeta_tokens m <> [].
 Proof. destruct m; discriminate. Qed.
 Lemma group_string_join g : group_string g = join SEP (map meta_text g).
 Proof. unfold group_string, meta_text. apply tok_string_sep. exact meta_tokens_ne. Qed.
-Definition cmeta_text (m : cmeta) : str := tok_string (cmeta_tokens m).
 Lemma cgroup_string_join g : cgroup_string g = join SEP (map cmeta_text g).
 Proof. unfold cgroup_string, cmeta_text. apply tok_string_sep. exact cmeta_tokens_ne. Qed.
 
-Definition KV (v : str) : str := " " :: "=" :: " " :: lit v.
-Lemma meta_text_rename v : meta_text (MRename v) = L "rename" ++ KV v.
-Proof. unfold meta_text, tok_string, KV. cbn [meta_tokens tok_go tok_text app]. rewrite app_nil_r. reflexivity. Qed.
-Lemma cmeta_text_rename_all v : cmeta_text (CRenameAll v) = L "rename_all" ++ KV v.
-Proof. unfold cmeta_text, tok_string, KV. cbn [cmeta_tokens tok_go tok_text app]. rewrite app_nil_r. reflexivity. Qed.
-Lemma cmeta_text_flag n : cmeta_text (CFlag n) = n.
-Proof. unfold cmeta_text, tok_string. cbn [cmeta_tokens tok_go tok_text app]. apply app_nil_r. Qed.
+(* what follows a rename key: pre = <lit v> post, with pre the empty string or an opening
+   parenthesis and a side name *)
+Definition KVt (pre v post : str) : str := pre ++ " " :: "=" :: " " :: lit v ++ post.
+Definition sd_text (p : bool * str) : str := tok_string (sd_tokens p).
+Lemma sd_tokens_ne p : sd_tokens p <> [].
+Proof. discriminate. Qed.
+Lemma join_cons_tail (x : str) l : join SEP (x :: l) = x ++ tail_text l.
+Proof. destruct l; [cbn [join tail_text]; rewrite app_nil_r; reflexivity|reflexivity]. Qed.
+Definition ptail (r : list (bool * str)) : str := tail_text (map sd_text r) ++ [")"].
+Lemma sd_text_eq b v : sd_text (b, v) = side_name b ++ " " :: "=" :: " " :: lit v.
+Proof. unfold sd_text, tok_string. cbn [sd_tokens tok_go tok_text fst snd app]. rewrite app_nil_r. reflexivity. Qed.
+Lemma paren_text_cons b v r : paren_text ((b, v) :: r) = "(" :: side_name b ++ " " :: "=" :: " " :: lit v ++ ptail r.
+Proof. unfold paren_text, ptail. rewrite (tok_string_sep sd_tokens _ sd_tokens_ne). cbn [map]. rewrite join_cons_tail.
+  fold (sd_text (b, v)). rewrite sd_text_eq. f_equal. rewrite <- !app_assoc. cbn [app]. rewrite <- ?app_assoc. reflexivity. Qed.
+
+Definition ppre (b : bool) : str := " " :: "(" :: side_name b.
+Lemma meta_text_rename v : meta_text (MRename v) = L "rename" ++ KVt [] v [].
+Proof. unfold meta_text, tok_string, KVt. cbn [meta_tokens tok_go tok_text app]. rewrite !app_nil_r. reflexivity. Qed.
+Lemma meta_text_renameP b v r : meta_text (MRenameP ((b, v) :: r)) = L "rename" ++ KVt (ppre b) v (ptail r).
+Proof. unfold meta_text, tok_string, KVt, ppre. cbn [meta_tokens tok_go tok_text]. rewrite paren_text_cons.
+  repeat (rewrite <- app_assoc || rewrite app_nil_r || (progress (cbn [app]))). reflexivity. Qed.
+Lemma cmeta_text_rename_all v : cmeta_text (CRenameAll v) = L "rename_all" ++ KVt [] v [].
+Proof. unfold cmeta_text, tok_string, KVt. cbn [cmeta_tokens tok_go tok_text app]. rewrite !app_nil_r. reflexivity. Qed.
+Lemma cmeta_text_rename_allP b v r : cmeta_text (CRenameAllP ((b, v) :: r)) = L "rename_all" ++ KVt (ppre b) v (ptail r).
+Proof. unfold cmeta_text, tok_string, KVt, ppre. cbn [cmeta_tokens tok_go tok_text]. rewrite paren_text_cons.
+  repeat (rewrite <- app_assoc || rewrite app_nil_r || (progress (cbn [app]))). reflexivity. Qed.
 Lemma meta_text_skip : meta_text MSkip = L "skip".
 Proof. reflexivity. Qed.
 
@@ -49,13 +67,22 @@ Lemma trim_start_sp c r : ws_len (c :: r) = 0 -> trim_start (" " :: c :: r) = c 
 Proof. intros H. unfold trim_start. cbn [List.length trim_start_go].
   change (ws_len (" " :: c :: r)) with 1. cbn [skipn]. rewrite H. reflexivity. Qed.
 
-Lemma kv_not_all v Q : starts (L "_all") (trim_start (KV v ++ Q)) = false.
-Proof. unfold KV. cbn [app]. rewrite trim_start_sp by reflexivity. reflexivity. Qed.
-Lemma kv_value v Q : needs_escape v = false ->
-  match after_char "=" (KV v ++ Q) with Some (_, r) => quoted_value (trim_start r) | None => None end = Some v.
-Proof. intros Hv. unfold KV, lit. cbn [app after_char]. change (Ascii.eqb " " "=") with false. change (Ascii.eqb "=" "=") with true.
-  cbv iota. rewrite trim_start_sp by reflexivity. unfold quoted_value. cbn [after_char]. change (Ascii.eqb """" """") with true. cbv iota.
-  rewrite (esc_id v Hv). rewrite <- app_assoc. cbn [app]. rewrite (after_char_app """" v Q (no_quote v Hv)). reflexivity. Qed.
+(* the three prefixes that occur: nothing, ( serialize, ( deserialize *)
+Definition pre_ok (pre : str) : Prop := pre = [] \/ pre = ppre true \/ pre = ppre false.
+Lemma ppre_ok b : pre_ok (ppre b).
+Proof. destruct b; [right; left|right; right]; reflexivity. Qed.
+Lemma kvt_not_all pre v post Q : pre_ok pre -> starts (L "_all") (trim_start (KVt pre v post ++ Q)) = false.
+Proof. unfold KVt. intros [-> | [-> | ->]]; cbn [ppre side_name L list_ascii_of_string app];
+  rewrite trim_start_sp by reflexivity; reflexivity. Qed.
+Lemma kvt_value pre v post Q : pre_ok pre -> needs_escape v = false ->
+  match after_char "=" (KVt pre v post ++ Q) with Some (_, r) => quoted_value (trim_start r) | None => None end = Some v.
+Proof. intros Hp Hv. unfold KVt.
+  assert (forallb (fun b => negb (Ascii.eqb b "=")) (pre ++ [" "]) = true) as Hne by (destruct Hp as [-> | [-> | ->]]; reflexivity).
+  replace ((pre ++ " " :: "=" :: " " :: lit v ++ post) ++ Q) with ((pre ++ [" "]) ++ "=" :: (" " :: lit v ++ post ++ Q))
+    by (rewrite <- !app_assoc; cbn [app]; rewrite <- !app_assoc; reflexivity).
+  rewrite (after_char_app "=" _ _ Hne). unfold lit. cbn [app]. rewrite trim_start_sp by reflexivity.
+  unfold quoted_value. cbn [after_char]. change (Ascii.eqb """" """") with true. cbv iota.
+  rewrite (esc_id v Hv). rewrite <- app_assoc. cbn [app]. rewrite (after_char_app """" v (post ++ Q) (no_quote v Hv)). reflexivity. Qed.
 
 (* ------------------------------------------------------------------ parse_rename on one attribute *)
 Lemma parse_rename_go_S f tokens : parse_rename_go (S f) tokens =
@@ -66,39 +93,52 @@ Lemma parse_rename_go_S f tokens : parse_rename_go (S f) tokens =
   end.
 Proof. unfold after_first. cbn [parse_rename_go]. destruct (find_sub (L "rename") tokens) as [[a b]|]; reflexivity. Qed.
 
-Definition is_rename (m : meta) : bool := match m with MRename _ => true | _ => false end.
 Definition rename_free (m : meta) : Prop := is_rename m = false -> contains (L "rename") (meta_text m) = false.
 
-Lemma first_rename_split g :
-  (first_rename g = None /\ forall m, In m g -> is_rename m = false) \/
-  (exists pre v post, g = pre ++ MRename v :: post /\ first_rename g = Some v /\ forall m, In m pre -> is_rename m = false).
-Proof. induction g as [|m g IH]; [left; split; [reflexivity|intros m []]|].
-  destruct m as [v| |n o].
-  - right. exists [], v, g. split; [reflexivity|]. split; [reflexivity|intros m []].
-  - destruct IH as [[Hn Ha]|[pre [v [post [-> [Hf Ha]]]]]].
-    + left. split; [exact Hn|]. intros m [<-|Hin]; [reflexivity|auto].
-    + right. exists (MSkip :: pre), v, post. split; [reflexivity|]. split; [exact Hf|]. intros m [<-|Hin]; [reflexivity|auto].
-  - destruct IH as [[Hn Ha]|[pre [v [post [-> [Hf Ha]]]]]].
-    + left. split; [exact Hn|]. intros m [<-|Hin]; [reflexivity|auto].
-    + right. exists (MOther n o :: pre), v, post. split; [reflexivity|]. split; [exact Hf|]. intros m [<-|Hin]; [reflexivity|auto]. Qed.
+(* the text of a rename meta: key, then a tail from which the scanner reads the head value *)
+Lemma rename_text m : is_rename m = true -> other_ok m = true ->
+  exists pre v post, pre_ok pre /\ meta_text m = L "rename" ++ KVt pre v post /\ head_rename [m] = Some v.
+Proof. destruct m as [v|l| |n o]; try discriminate; intros _ Hok.
+  - exists [], v, []. split; [left; reflexivity|]. split; [apply meta_text_rename|reflexivity].
+  - destruct l as [|[b v] r]; [discriminate|]. exists (ppre b), v, (ptail r). split; [apply ppre_ok|].
+    split; [apply meta_text_renameP|reflexivity]. Qed.
+
+Lemma head_rename_split g : forallb other_ok g = true ->
+  (head_rename g = None /\ forall m, In m g -> is_rename m = false) \/
+  (exists pre m post, g = pre ++ m :: post /\ is_rename m = true /\ head_rename g = head_rename [m] /\
+                      forall x, In x pre -> is_rename x = false).
+Proof. induction g as [|m g IH]; intros Hok; [left; split; [reflexivity|intros m []]|].
+  cbn [forallb] in Hok. apply andb_true_iff in Hok as [Hm Hok]. specialize (IH Hok).
+  destruct (is_rename m) eqn:Er.
+  - right. exists [], m, g. split; [reflexivity|]. split; [exact Er|]. split; [|intros x []].
+    destruct m as [v|l| |n o]; try discriminate; [reflexivity|]. destruct l as [|[b v] r]; [discriminate|reflexivity].
+  - assert (head_rename (m :: g) = head_rename g) as Hh by (destruct m; try discriminate; reflexivity).
+    destruct IH as [[Hn Ha]|[pre [m' [post [-> [Hr [Hf Ha]]]]]]].
+    + left. split; [rewrite Hh; exact Hn|]. intros x [<-|Hin]; [exact Er|auto].
+    + right. exists (m :: pre), m', post. split; [reflexivity|]. split; [exact Hr|]. split; [rewrite Hh; exact Hf|].
+      intros x [<-|Hin]; [exact Er|auto]. Qed.
 
 Lemma pat_rename_ok : nospace (L "rename") = true /\ L "rename" <> [] /\ contains (L "rename") [","] = false.
 Proof. split; [reflexivity|]. split; [discriminate|reflexivity]. Qed.
 
+(* the scanner returns the head value of the first rename meta *)
 Lemma parse_rename_group g :
+  forallb other_ok g = true ->
   (forall m, In m g -> rename_free m) ->
-  (forall v, first_rename g = Some v -> needs_escape v = false) ->
-  parse_rename (group_string g) = first_rename g.
-Proof. intros Hfree Hesc. destruct pat_rename_ok as (Hn & Hp & Hc).
+  (forall v, head_rename g = Some v -> needs_escape v = false) ->
+  parse_rename (group_string g) = head_rename g.
+Proof. intros Hok Hfree Hesc. destruct pat_rename_ok as (Hn & Hp & Hc).
   unfold parse_rename. rewrite parse_rename_go_S, group_string_join.
-  destruct (first_rename_split g) as [[Hnone Ha]|[pre [v [post [-> [Hf Ha]]]]]].
+  destruct (head_rename_split g Hok) as [[Hnone Ha]|[pre [m [post [Hg [Hr [Hf Ha]]]]]]].
   - rewrite (after_first_join_none _ Hn Hp Hc).
     + symmetry. exact Hnone.
     + intros x Hx. apply in_map_iff in Hx as [m [<- Hm]]. apply (Hfree m Hm). apply Ha. exact Hm.
-  - rewrite map_app. cbn [map]. rewrite (after_first_join _ Hn Hp Hc (map meta_text pre) _ (KV v) (map meta_text post)).
-    + rewrite kv_not_all, kv_value; [symmetry; exact Hf|]. apply Hesc. exact Hf.
-    + intros x Hx. apply in_map_iff in Hx as [m [<- Hm]]. apply (Hfree m); [apply in_or_app; left; exact Hm|]. apply Ha. exact Hm.
-    + apply meta_text_rename. Qed.
+  - subst g. assert (other_ok m = true) as Hmok by (apply (proj1 (forallb_forall _ _) Hok); apply in_or_app; right; left; reflexivity).
+    destruct (rename_text m Hr Hmok) as (p & v & q & Hpre & Htext & Hv).
+    rewrite map_app. cbn [map]. rewrite (after_first_join _ Hn Hp Hc (map meta_text pre) _ (KVt p v q) (map meta_text post)).
+    + rewrite (kvt_not_all p v q _ Hpre), (kvt_value p v q _ Hpre); [rewrite Hf, Hv; reflexivity|]. apply Hesc. rewrite Hf. exact Hv.
+    + intros x Hx. apply in_map_iff in Hx as [m0 [<- Hm]]. apply (Hfree m0); [apply in_or_app; left; exact Hm|]. apply Ha. exact Hm.
+    + exact Htext. Qed.
 
 (* ------------------------------------------------------------------ the skip test on one attribute *)
 Lemma pat_skip_ok : nospace (L "skip") = true /\ L "skip" <> [] /\ contains (L "skip") [","] = false.
@@ -128,49 +168,64 @@ Proof. revert rn sk. induction gs as [|ts gs IH]; intros rn sk; cbn [field_attrs
   - rewrite orb_false_r. reflexivity.
   - rewrite IH. f_equal. destruct (field_skip ts), sk; reflexivity. Qed.
 
-Lemma first_rename_app a b : first_rename (a ++ b) = match first_rename a with Some v => Some v | None => first_rename b end.
-Proof. induction a as [|m a IH]; [reflexivity|]. destruct m; cbn [app first_rename]; auto. Qed.
+Lemma head_rename_app a b : head_rename (a ++ b) = match head_rename a with Some v => Some v | None => head_rename b end.
+Proof. induction a as [|m a IH]; [reflexivity|]. destruct m as [v|l| |n o]; cbn [app head_rename]; auto.
+  destruct (head_val l); auto. Qed.
 Lemma count_renames_app a b : count_renames (a ++ b) = count_renames a + count_renames b.
 Proof. unfold count_renames. rewrite filter_app, app_length. reflexivity. Qed.
-Lemma first_rename_count g v : first_rename g = Some v -> 1 <= count_renames g.
-Proof. induction g as [|m g IH]; [discriminate|]. destruct m; cbn [first_rename]; intros H.
-  - unfold count_renames. cbn [filter List.length]. lia.
-  - apply IH in H. unfold count_renames in *. cbn [filter]. exact H.
-  - apply IH in H. unfold count_renames in *. cbn [filter]. exact H. Qed.
+Lemma head_rename_count g v : head_rename g = Some v -> 1 <= count_renames g.
+Proof. induction g as [|m g IH]; [discriminate|]. destruct m as [w|l| |n o]; cbn [head_rename]; intros H;
+  unfold count_renames in *; cbn [filter is_rename List.length]; try lia; apply IH in H; exact H. Qed.
 
 Lemma last_rename_groups gs rn :
-  (forall g, In g gs -> parse_rename (group_string g) = first_rename g) ->
+  (forall g, In g gs -> parse_rename (group_string g) = head_rename g) ->
   count_renames (concat gs) <= 1 ->
-  last_rename (map group_string gs) rn = match first_rename (concat gs) with Some v => Some v | None => rn end.
+  last_rename (map group_string gs) rn = match head_rename (concat gs) with Some v => Some v | None => rn end.
 Proof. revert rn. induction gs as [|g gs IH]; intros rn Hp Hc; [reflexivity|].
   cbn [map last_rename concat]. rewrite (Hp g (or_introl eq_refl)).
   cbn [concat] in Hc. rewrite count_renames_app in Hc.
   rewrite IH; [|intros g' Hg'; apply Hp; right; exact Hg'|lia].
-  rewrite first_rename_app. destruct (first_rename g) as [v|] eqn:Eg; [|reflexivity].
-  destruct (first_rename (concat gs)) as [w|] eqn:Ew; [|reflexivity].
-  apply first_rename_count in Eg. apply first_rename_count in Ew. lia. Qed.
+  rewrite head_rename_app. destruct (head_rename g) as [v|] eqn:Eg; [|reflexivity].
+  destruct (head_rename (concat gs)) as [w|] eqn:Ew; [|reflexivity].
+  apply head_rename_count in Eg. apply head_rename_count in Ew. lia. Qed.
 
 (* per-item facts delivered by the domain and the complement of the classes *)
 Definition item_rename_free (it : item) : Prop := forall m, In m (concat (it_attrs it)) -> rename_free m.
 
+Lemma forallb_concat_in {A} (f : A -> bool) gs g : forallb f (concat gs) = true -> In g gs -> forallb f g = true.
+Proof. intros H Hg. apply forallb_forall. intros x Hx. apply (proj1 (forallb_forall _ _) H). apply in_concat. exists g. split; assumption. Qed.
+
 Lemma item_rename it :
+  forallb other_ok (concat (it_attrs it)) = true ->
   item_rename_free it ->
-  (forall v, rename_of it = Some v -> needs_escape v = false) ->
+  (forall v, head_rename (concat (it_attrs it)) = Some v -> needs_escape v = false) ->
   count_renames (concat (it_attrs it)) <= 1 ->
-  fst (field_attrs (map group_string (it_attrs it))) = rename_of it.
-Proof. intros Hfree Hesc Hc. unfold field_attrs. rewrite field_attrs_go_spec. cbn [fst].
-  rewrite last_rename_groups; [unfold rename_of; destruct (first_rename (concat (it_attrs it))); reflexivity| |exact Hc].
+  fst (field_attrs (map group_string (it_attrs it))) = head_rename (concat (it_attrs it)).
+Proof. intros Hok Hfree Hesc Hc. unfold field_attrs. rewrite field_attrs_go_spec. cbn [fst].
+  rewrite last_rename_groups; [destruct (head_rename (concat (it_attrs it))); reflexivity| |exact Hc].
   intros g Hg. apply parse_rename_group.
+  - apply (forallb_concat_in _ _ _ Hok Hg).
   - intros m Hm. apply Hfree. apply in_concat. exists g. split; assumption.
-  - intros v Hv. destruct (first_rename_split g) as [[Hn _]|[pre [w [post [Hgeq [Hf _]]]]]]; [congruence|].
-    (* the first rename of g is the only rename of the item *)
-    assert (rename_of it = Some v) as Hr.
-    { unfold rename_of. apply in_split in Hg as [l1 [l2 Hl]]. rewrite Hl in *. rewrite concat_app. cbn [concat].
-      rewrite first_rename_app. destruct (first_rename (concat l1)) as [u|] eqn:E1.
+  - intros v Hv.
+    (* the head rename of g is the only rename of the item *)
+    assert (head_rename (concat (it_attrs it)) = Some v) as Hr.
+    { apply in_split in Hg as [l1 [l2 Hl]]. rewrite Hl in *. rewrite concat_app. cbn [concat].
+      rewrite head_rename_app. destruct (head_rename (concat l1)) as [u|] eqn:E1.
       - exfalso. rewrite concat_app in Hc. cbn [concat] in Hc. rewrite !count_renames_app in Hc.
-        apply first_rename_count in E1. apply first_rename_count in Hv. lia.
-      - rewrite first_rename_app, Hv. reflexivity. }
+        apply head_rename_count in E1. apply head_rename_count in Hv. lia.
+      - rewrite head_rename_app, Hv. reflexivity. }
     apply Hesc. exact Hr. Qed.
+
+(* outside C06-8 the head value is the serialize name *)
+Lemma head_is_ser l : sd_ok l = true -> sd_bad l = false -> head_val l = ser_of l.
+Proof. unfold sd_bad. intros _ H. apply negb_false_iff in H. destruct (head_val l) as [a|], (ser_of l) as [b|]; try discriminate; [|reflexivity].
+  cbn [opt_str_eqb] in H. apply str_eqb_eq in H. subst. reflexivity. Qed.
+Lemma head_rename_is_first g : forallb other_ok g = true ->
+  (forall l, In (MRenameP l) g -> sd_bad l = false) -> head_rename g = first_rename g.
+Proof. induction g as [|m g IH]; intros Hok Hsd; [reflexivity|]. cbn [forallb] in Hok. apply andb_true_iff in Hok as [Hm Hok].
+  assert (head_rename g = first_rename g) as Hg by (apply IH; [exact Hok|intros l Hl; apply Hsd; right; exact Hl]).
+  destruct m as [v|l| |n o]; cbn [head_rename first_rename]; try exact Hg; [reflexivity|].
+  cbn [other_ok] in Hm. rewrite (head_is_ser l Hm (Hsd l (or_introl eq_refl))), Hg. reflexivity. Qed.
 
 Lemma item_skip_true it : has_skip it = true -> existsb group_skip_seen (it_attrs it) = true ->
   snd (field_attrs (map group_string (it_attrs it))) = true.
@@ -188,30 +243,42 @@ Proof. intros Hs H. unfold field_attrs. rewrite field_attrs_go_spec. cbn [snd or
 Lemma pat_ra_ok : nospace (L "rename_all") = true /\ L "rename_all" <> [] /\ contains (L "rename_all") [","] = false.
 Proof. split; [reflexivity|]. split; [discriminate|reflexivity]. Qed.
 
-Lemma rule_value_plain v r : rule_of_str v = Some r -> needs_escape v = false.
-Proof. unfold rule_of_str. intros H.
+Lemma rule_value_plain v : valid_rule v = true -> needs_escape v = false.
+Proof. unfold valid_rule, rule_of_str. intros H.
   repeat match type of H with
-  | (if str_eqb v ?s then _ else _) = _ => destruct (str_eqb v s) eqn:E; [apply str_eqb_eq in E; subst v; reflexivity|clear E]
+  | match (if str_eqb v ?s then _ else _) with _ => _ end = _ => destruct (str_eqb v s) eqn:E; [apply str_eqb_eq in E; subst v; reflexivity|clear E]
   end. discriminate. Qed.
 
-Definition is_ra (m : cmeta) : bool := match m with CRenameAll _ => true | _ => false end.
-Lemma first_ra_split g :
-  (first_rename_all g = None /\ forall m, In m g -> is_ra m = false) \/
-  (exists pre v post, g = pre ++ CRenameAll v :: post /\ first_rename_all g = Some v /\ forall m, In m pre -> is_ra m = false).
-Proof. induction g as [|m g IH]; [left; split; [reflexivity|intros m []]|].
-  destruct m as [v|n].
-  - right. exists [], v, g. split; [reflexivity|]. split; [reflexivity|intros m []].
-  - destruct IH as [[Hn Ha]|[pre [v [post [-> [Hf Ha]]]]]].
-    + left. split; [exact Hn|]. intros m [<-|Hin]; [reflexivity|auto].
-    + right. exists (CFlag n :: pre), v, post. split; [reflexivity|]. split; [exact Hf|]. intros m [<-|Hin]; [reflexivity|auto]. Qed.
+Definition ra_free (m : cmeta) : Prop := is_ra m = false -> contains (L "rename_all") (cmeta_text m) = false.
 
-Lemma parse_rename_all_group g : forallb cmeta_ok g = true ->
-  parse_rename_all (cgroup_string g) = match first_rename_all g with Some v => rule_of_str v | None => None end.
-Proof. intros Hok. destruct pat_ra_ok as (Hn & Hp & Hc).
-  assert (forall m, In m g -> is_ra m = false -> contains (L "rename_all") (cmeta_text m) = false) as Hfree.
-  { intros m Hm Hr. pose proof (proj1 (forallb_forall _ _) Hok m Hm) as H. destruct m as [v|n]; [discriminate|].
-    cbn [cmeta_ok] in H. apply andb_true_iff in H as [_ H]. apply negb_true_iff in H. rewrite cmeta_text_flag. exact H. }
-  unfold parse_rename_all. fold (after_first (L "rename_all") (cgroup_string g)).
+Lemma ra_text m : is_ra m = true -> cmeta_ok m = true ->
+  exists pre v post, pre_ok pre /\ cmeta_text m = L "rename_all" ++ KVt pre v post /\ head_rename_all [m] = Some v /\ valid_rule v = true.
+Proof. destruct m as [v|l|n|n w]; try discriminate; intros _ Hok.
+  - exists [], v, []. split; [left; reflexivity|]. split; [apply cmeta_text_rename_all|]. split; [reflexivity|exact Hok].
+  - cbn [cmeta_ok] in Hok. apply andb_true_iff in Hok as [Hsd Hv]. destruct l as [|[b v] r]; [discriminate|].
+    exists (ppre b), v, (ptail r). split; [apply ppre_ok|]. split; [apply cmeta_text_rename_allP|]. split; [reflexivity|].
+    cbn [forallb snd] in Hv. apply andb_true_iff in Hv as [Hv _]. exact Hv. Qed.
+
+Lemma head_ra_split g : forallb cmeta_ok g = true ->
+  (head_rename_all g = None /\ forall m, In m g -> is_ra m = false) \/
+  (exists pre m post, g = pre ++ m :: post /\ is_ra m = true /\ head_rename_all g = head_rename_all [m] /\
+                      forall x, In x pre -> is_ra x = false).
+Proof. induction g as [|m g IH]; intros Hok; [left; split; [reflexivity|intros m []]|].
+  cbn [forallb] in Hok. apply andb_true_iff in Hok as [Hm Hok]. specialize (IH Hok).
+  destruct (is_ra m) eqn:Er.
+  - right. exists [], m, g. split; [reflexivity|]. split; [exact Er|]. split; [|intros x []].
+    destruct m as [v|l|n|n w]; try discriminate; [reflexivity|].
+    cbn [cmeta_ok] in Hm. apply andb_true_iff in Hm as [Hsd _]. destruct l as [|[b v] r]; [discriminate|reflexivity].
+  - assert (head_rename_all (m :: g) = head_rename_all g) as Hh by (destruct m; try discriminate; reflexivity).
+    destruct IH as [[Hn Ha]|[pre [m' [post [-> [Hr [Hf Ha]]]]]]].
+    + left. split; [rewrite Hh; exact Hn|]. intros x [<-|Hin]; [exact Er|auto].
+    + right. exists (m :: pre), m', post. split; [reflexivity|]. split; [exact Hr|]. split; [rewrite Hh; exact Hf|].
+      intros x [<-|Hin]; [exact Er|auto]. Qed.
+
+Lemma parse_rename_all_group g : forallb cmeta_ok g = true -> (forall m, In m g -> ra_free m) ->
+  parse_rename_all (cgroup_string g) = match head_rename_all g with Some v => rule_of_str v | None => None end.
+Proof. intros Hok Hfree. destruct pat_ra_ok as (Hn & Hp & Hc).
+  unfold parse_rename_all.
   assert (forall s, match find_sub (L "rename_all") s with
                     | Some (_, r0) => match after_char "=" r0 with
                                       | Some (_, r) => match quoted_value (trim_start r) with Some v => rule_of_str v | None => None end
@@ -224,51 +291,66 @@ Proof. intros Hok. destruct pat_ra_ok as (Hn & Hp & Hc).
                     | None => None end) as Hrw.
   { intros s. unfold after_first. destruct (find_sub (L "rename_all") s) as [[a b]|]; reflexivity. }
   rewrite Hrw. clear Hrw. rewrite cgroup_string_join.
-  destruct (first_ra_split g) as [[Hnone Ha]|[pre [v [post [-> [Hf Ha]]]]]].
+  destruct (head_ra_split g Hok) as [[Hnone Ha]|[pre [m [post [Hg [Hr [Hf Ha]]]]]]].
   - rewrite (after_first_join_none _ Hn Hp Hc).
     + rewrite Hnone. reflexivity.
     + intros x Hx. apply in_map_iff in Hx as [m [<- Hm]]. apply (Hfree m Hm). apply Ha. exact Hm.
-  - rewrite map_app. cbn [map]. rewrite (after_first_join _ Hn Hp Hc (map cmeta_text pre) _ (KV v) (map cmeta_text post)).
-    + rewrite Hf.
-      pose proof (proj1 (forallb_forall _ _) Hok (CRenameAll v) (in_or_app _ _ _ (or_intror (in_eq _ _)))) as Hv.
-      cbn [cmeta_ok] in Hv. destruct (rule_of_str v) as [r|] eqn:Er; [|discriminate].
-      pose proof (kv_value v (tail_text (map cmeta_text post)) (rule_value_plain v r Er)) as Hkv.
-      destruct (after_char "=" (KV v ++ tail_text (map cmeta_text post))) as [[x y]|]; [|discriminate].
-      rewrite Hkv. exact Er.
-    + intros x Hx. apply in_map_iff in Hx as [m [<- Hm]]. apply (Hfree m); [apply in_or_app; left; exact Hm|]. apply Ha. exact Hm.
-    + apply cmeta_text_rename_all. Qed.
+  - subst g. assert (cmeta_ok m = true) as Hmok by (apply (proj1 (forallb_forall _ _) Hok); apply in_or_app; right; left; reflexivity).
+    destruct (ra_text m Hr Hmok) as (p & v & q & Hpre & Htext & Hv & Hvalid).
+    rewrite map_app. cbn [map]. rewrite (after_first_join _ Hn Hp Hc (map cmeta_text pre) _ (KVt p v q) (map cmeta_text post)).
+    + rewrite Hf, Hv.
+      pose proof (kvt_value p v q (tail_text (map cmeta_text post)) Hpre (rule_value_plain v Hvalid)) as Hkv.
+      destruct (after_char "=" (KVt p v q ++ tail_text (map cmeta_text post))) as [[x y]|]; [|discriminate].
+      rewrite Hkv. reflexivity.
+    + intros x Hx. apply in_map_iff in Hx as [m0 [<- Hm]]. apply (Hfree m0); [apply in_or_app; left; exact Hm|]. apply Ha. exact Hm.
+    + exact Htext. Qed.
 
-Lemma first_ra_app a b : first_rename_all (a ++ b) = match first_rename_all a with Some v => Some v | None => first_rename_all b end.
-Proof. induction a as [|m a IH]; [reflexivity|]. destruct m; cbn [app first_rename_all]; auto. Qed.
+Lemma head_ra_app a b : head_rename_all (a ++ b) = match head_rename_all a with Some v => Some v | None => head_rename_all b end.
+Proof. induction a as [|m a IH]; [reflexivity|]. destruct m as [v|l|n|n w]; cbn [app head_rename_all]; auto.
+  destruct (head_val l); auto. Qed.
 Lemma count_ra_app a b : count_rename_all (a ++ b) = count_rename_all a + count_rename_all b.
 Proof. unfold count_rename_all. rewrite filter_app, app_length. reflexivity. Qed.
-Lemma first_ra_count g v : first_rename_all g = Some v -> 1 <= count_rename_all g.
-Proof. induction g as [|m g IH]; [discriminate|]. destruct m; cbn [first_rename_all]; intros H.
-  - unfold count_rename_all. cbn [filter List.length]. lia.
-  - apply IH in H. unfold count_rename_all in *. cbn [filter]. exact H. Qed.
-Lemma first_ra_valid g v : forallb cmeta_ok g = true -> first_rename_all g = Some v -> exists r, rule_of_str v = Some r.
+Lemma head_ra_count g v : head_rename_all g = Some v -> 1 <= count_rename_all g.
+Proof. induction g as [|m g IH]; [discriminate|]. destruct m as [w|l|n|n w]; cbn [head_rename_all]; intros H;
+  unfold count_rename_all in *; cbn [filter is_ra List.length]; try lia; apply IH in H; exact H. Qed.
+Lemma head_ra_valid g v : forallb cmeta_ok g = true -> head_rename_all g = Some v -> valid_rule v = true.
 Proof. induction g as [|m g IH]; [discriminate|]. cbn [forallb]. intros H Hf. apply andb_true_iff in H as [Hm H].
-  destruct m as [w|n]; cbn [first_rename_all] in Hf.
-  - injection Hf as <-. cbn [cmeta_ok] in Hm. destruct (rule_of_str w) as [r|]; [exists r; reflexivity|discriminate].
-  - apply IH; assumption. Qed.
+  destruct m as [w|l|n|n w]; cbn [head_rename_all] in Hf; try (apply IH; assumption).
+  - injection Hf as <-. exact Hm.
+  - cbn [cmeta_ok] in Hm. apply andb_true_iff in Hm as [_ Hv]. destruct l as [|[b x] r]; cbn [head_val] in Hf; [apply IH; assumption|].
+    injection Hf as <-. cbn [forallb snd] in Hv. apply andb_true_iff in Hv as [Hv _]. exact Hv. Qed.
 
-Lemma struct_attrs_groups gs ra : forallb cmeta_ok (concat gs) = true -> count_rename_all (concat gs) <= 1 ->
+Lemma struct_attrs_groups gs ra : forallb cmeta_ok (concat gs) = true -> (forall m, In m (concat gs) -> ra_free m) ->
+  count_rename_all (concat gs) <= 1 ->
   struct_attrs_go (map cgroup_string gs) ra =
-  match first_rename_all (concat gs) with Some v => rule_of_str v | None => ra end.
-Proof. revert ra. induction gs as [|g gs IH]; intros ra Hok Hc; [reflexivity|].
-  cbn [concat] in Hok, Hc. rewrite forallb_app in Hok. apply andb_true_iff in Hok as [Hg Hgs]. rewrite count_ra_app in Hc.
-  cbn [map struct_attrs_go concat]. rewrite (parse_rename_all_group g Hg). rewrite IH; [|exact Hgs|lia].
-  rewrite first_ra_app. destruct (first_rename_all g) as [v|] eqn:Eg.
-  - destruct (first_rename_all (concat gs)) as [w|] eqn:Ew.
-    + apply first_ra_count in Eg. apply first_ra_count in Ew. lia.
-    + destruct (first_ra_valid g v Hg Eg) as [r Hr]. rewrite Hr. reflexivity.
+  match head_rename_all (concat gs) with Some v => rule_of_str v | None => ra end.
+Proof. revert ra. induction gs as [|g gs IH]; intros ra Hok Hfree Hc; [reflexivity|].
+  cbn [concat] in Hok, Hc, Hfree. rewrite forallb_app in Hok. apply andb_true_iff in Hok as [Hg Hgs]. rewrite count_ra_app in Hc.
+  cbn [map struct_attrs_go concat]. rewrite (parse_rename_all_group g Hg) by (intros m Hm; apply Hfree; apply in_or_app; left; exact Hm).
+  rewrite IH; [|exact Hgs|intros m Hm; apply Hfree; apply in_or_app; right; exact Hm|lia].
+  rewrite head_ra_app. destruct (head_rename_all g) as [v|] eqn:Eg.
+  - destruct (head_rename_all (concat gs)) as [w|] eqn:Ew.
+    + apply head_ra_count in Eg. apply head_ra_count in Ew. lia.
+    + pose proof (head_ra_valid g v Hg Eg) as Hr. unfold valid_rule in Hr. destruct (rule_of_str v); [reflexivity|discriminate].
   - reflexivity. Qed.
 
-Lemma struct_attrs_container c : in_domain c = true ->
+Lemma head_ra_is_first g : forallb cmeta_ok g = true ->
+  (forall l, In (CRenameAllP l) g -> sd_bad l = false) -> head_rename_all g = first_rename_all g.
+Proof. induction g as [|m g IH]; intros Hok Hsd; [reflexivity|]. cbn [forallb] in Hok. apply andb_true_iff in Hok as [Hm Hok].
+  assert (head_rename_all g = first_rename_all g) as Hg by (apply IH; [exact Hok|intros l Hl; apply Hsd; right; exact Hl]).
+  destruct m as [v|l|n|n w]; cbn [head_rename_all first_rename_all]; try exact Hg; [reflexivity|].
+  cbn [cmeta_ok] in Hm. apply andb_true_iff in Hm as [Hm _]. rewrite (head_is_ser l Hm (Hsd l (or_introl eq_refl))), Hg. reflexivity. Qed.
+
+Lemma struct_attrs_container c : in_domain c = true -> kf_sd_first c = false -> kf_rename_all_text c = false ->
   struct_attrs (map cgroup_string (c_attrs c)) = container_rule c.
-Proof. unfold in_domain. intros H. apply andb_true_iff in H as [H _]. apply andb_true_iff in H as [H Hc]. apply andb_true_iff in H as [_ Hok].
-  unfold struct_attrs, container_rule. rewrite struct_attrs_groups; [|exact Hok|apply Nat.leb_le; exact Hc].
-  destruct (first_rename_all (concat (c_attrs c))); reflexivity. Qed.
+Proof. unfold in_domain. intros H Hsd Htext. apply andb_true_iff in H as [H _]. apply andb_true_iff in H as [H Hc]. apply andb_true_iff in H as [_ Hok].
+  unfold struct_attrs, container_rule. rewrite struct_attrs_groups; [|exact Hok| |apply Nat.leb_le; exact Hc].
+  - rewrite (head_ra_is_first _ Hok).
+    + destruct (first_rename_all (concat (c_attrs c))); reflexivity.
+    + intros l Hl. unfold kf_sd_first in Hsd. apply orb_false_iff in Hsd as [Hsd _].
+      exact (existsb_false_in _ _ Hsd (CRenameAllP l) Hl).
+  - intros m Hm Hr. unfold kf_rename_all_text in Htext. pose proof (existsb_false_in _ _ Htext m Hm) as H1. cbn beta in H1.
+    rewrite Hr in H1. cbn [negb andb] in H1. exact H1. Qed.
 
 (* ------------------------------------------------------------------ the renaming rules *)
 Definition all_bytes : list ascii := map (fun n => ascii_of_nat n) (seq 0 256).
